@@ -18,6 +18,7 @@ def run(prog: Program, rep: Report, tier: str) -> None:
     rep.rule('C07-D2', 'sparsity relative to semiring zero: in einsum and log_viterbi_einsum_forward the operand list is rebound to [t.default_to(<from_int(0)>.item()) ...] before any axis is unified, and every value tensor they construct takes its default from from_int(0)')
     rep.rule('C07-D3', 'mv / mm forward the semiring and use index strings that denote matrix-vector / matrix-matrix contraction')
     rep.rule('C07-D4', 'pointer width: at every return of the Viterbi variant the size of the pointer\'s last axis is derived from the summed-out indices (index_to_vaxis after the output pops / ptr.size(-1) / len(ptrs)), never from the output axes; the literal 0 only on the empty-operand return')
+    rep.rule('C07-D5', 'stride-0 reduction only for sum-free equations: in reduce_equation the operands are shrunk (as_strided) only when every variable of the equation is an output variable; with a summed-out variable the equation is handed on unchanged (a broadcast summed-out index contributes n identical terms and must not be dropped)')
     rep.not_decided += ['correctness of axis unification, projection strides, reduce_equation and argmax reconstruction (numerical / combinatorial)']
     rep.trusted += ['torch_semiring_einsum calls the callbacks as documented (extend.py)', 'transfer tables of sa/absint/domain.py']
     semiring_laws.check_einsum_callbacks(prog, rep, 'C07-D1 callbacks')
@@ -28,6 +29,7 @@ def run(prog: Program, rep: Report, tier: str) -> None:
     rep.floor('C07-D2 value constructors', n_ctor, 6)
     shorthands(rep, prog)
     pointer_width(rep, prog)
+    reduce_only_sum_free(rep, prog)
 
 
 def _is_zero_call(f: FuncInfo, v: ast.AST, depth: int = 0) -> bool:
@@ -253,3 +255,27 @@ def _ancestors(g: FuncInfo, node: ast.AST):
     while p is not None:
         yield p
         p = pm.get(id(p))
+
+
+def reduce_only_sum_free(rep: Report, prog: Program) -> None:
+    rule = 'C07-D5 reduce-only-sum-free'
+    from ..guards import Env, walk, collect_atoms
+    f = prog.func('fggs.equation', 'reduce_equation')
+    cfg = cfg_of(f)
+    shrink = [n for n, nd in cfg.nodes.items() if nd.kind == 'stmt' and nd.stmt is not None and any(isinstance(x, ast.Call) and callee_last(x) == 'as_strided' for x in ast.walk(nd.stmt))]
+    if not shrink:
+        rep.ob(rule, f.fq(), 'no stride-0 shrinking at all', f.loc(), True, 'reduce_equation never shrinks operands', nontrivial=False)
+        return
+    atoms = {}
+    for n, nd in cfg.nodes.items():
+        if nd.kind == 'test': atoms.update(collect_atoms(nd.expr))
+    sumfree = [t for t, a in atoms.items() if isinstance(a, ast.Compare) and isinstance(a.ops[0], (ast.Eq, ast.NotEq)) and 'output_variables' in t and 'num_variables' in t]
+    if not sumfree:
+        rep.ob(rule, f.fq(), 'shrinking guarded by len(output_variables) == num_variables', f.loc(cfg.nodes[shrink[0]].stmt), False,
+               'operands are shrunk without testing that the equation has no summed-out variable: a summed-out index that is broadcast in every operand is dropped instead of contributing its n identical terms')
+        return
+    t = sumfree[0]
+    r = walk(cfg, cfg.entry, Env(atoms={t: False}), unknown='both')
+    bad = [n for n in shrink if n in r]
+    rep.ob(rule, f.fq(), f"as_strided shrinking unreachable unless ({t})", f.loc(cfg.nodes[shrink[0]].stmt), not bad,
+           'an equation with a summed-out variable is returned unchanged' if not bad else 'the shrinking is reachable for an equation with a summed-out variable')
